@@ -618,7 +618,7 @@ class Gen:
             body += [("F", "get" + list(vs)[0], list(vs)[0]), ("D",), ("C",)]
             mods.append({"name": nm, "partial": False, "body": body})
         declared = sorted({n for nm in names for n in decl[nm]})
-        pool_ = declared if r.random() < 0.7 else VARS + ["p-x", "q-y", "xz"] + [p_ + n for p_ in PFXS for n in declared]
+        pool_ = declared if r.random() < 0.7 else sorted(set(VARS + ["p-x", "q-y", "xz"] + [p_ + n for p_ in PFXS for n in declared]))
         cfg_names = r.sample(pool_, min(len(pool_), r.choice([1, 1, 2])))
         main = [("U", ("a", False, False, False), "=", [(n, self.v()) for n in cfg_names])]
         for t in ("b", "c"):
